@@ -405,9 +405,16 @@ func fontWF(f *Font) bool {
 //@ ensures [C19.list.len] len(result) == f.NumGlyphs()
 //@ loop 1 invariant f != nil && order != nil
 //@ loop 2 invariant f != nil && order != nil
+// sort keys: .notdef sorts before every code, an encoded glyph sorts by its
+// code, a glyph without code after all 256 codes.
+//@ loop 1 back-when [C19.list.key.unencoded] has(order, name) && order[name] > 255
+//@ loop 2 invariant [C19.list.key.notdef] has(order, ".notdef") && order[".notdef"] == -1
+//@ loop 2 back-when [C19.list.key.code] name != ".notdef" ==> has(order, name) && order[name] == prev(i) && 0 <= order[name]
+//@ loop 2 back-when [C19.list.key.frame] forall nm string :: nm != name && has(prev(order), nm) ==> has(order, nm) && order[nm] == prev(order[nm])
 
 //@ func (*Font).GlyphList$1
 //@ requires 0 <= i && i < len(glyphNames) && 0 <= j && j < len(glyphNames)
+//@ ensures [C19.list.less] result == (order[glyphNames[i]] < order[glyphNames[j]] || (order[glyphNames[i]] == order[glyphNames[j]] && glyphNames[i] < glyphNames[j]))
 
 func hasPoint(c GlyphOp) bool {
 	return c.Op == OpMoveTo || c.Op == OpLineTo || c.Op == OpCurveTo
